@@ -23,6 +23,11 @@ CHECKS = {
   "Every class x every reachable serializable non-migrating property name x values of the declared type as a single-property instance, one all-properties instance per class and Ref topologies are written/read by rbx_binary and rbx_xml; the read-backs must agree and converting either to the other format and back must lose nothing.",
   "Compared modulo the binary format's documented rotation snap (applied to both sides) and with NaN as a class; restricted to explicitly set properties.",
   "5/C06"),
+ "C07": ("codec", "model_checking",
+  "bounded-exhaustive enumeration of DOM plans x every construction variant (property insertion permutations, construction sequences, Ref assignments, rebuilt hash maps, independent worker processes), byte-comparing all serializer outputs; plus the re-save fixed point",
+  "Every plan of the topology and property-menu sweeps is built in every variant and serialized to binary (3 compressions) and XML; all outputs of one plan must be byte-identical within a process and across 16 independently started processes (fresh process-wide hash seeds); save(load(save(load(s)))) must equal save(load(s)).",
+  "Iteration-order nondeterminism is provoked through insertion order, capacity history, Ref values, per-map ahash seeds and process-level seeds; coverage of hash layouts is what those variants produce, not all layouts.",
+  "5/C07"),
  "C08": ("codec", "model_checking",
   "bounded-exhaustive enumeration of ordered tuples of same-class instances over the full product of per-instance property-spelling configurations, through the real binary writer and reader",
   "Every ordered tuple of up to 3 (thorough: 4 for small menus) instances of Part, TextLabel, ScreenGui and an unknown class, each with every combination of absent/each spelling per logical property; checks 'serializes whenever each does alone' (hence order independence) and 'own value or class default, never a sibling's' on the read-back.",
@@ -120,7 +125,7 @@ def main():
              "kind_free_text": "explicit-state BFS whose transition function calls the real WeakDom methods; reference model in lock-step (harness/src/dommodel.rs)"},
             {"name": "dbwalk", "path": "harness/src/c16.rs", "serves_properties": ["C06", "C15", "C16"], "kind_free_text": "complete enumeration of the reflection database through the public rbx_reflection types and both codecs"},
             {"name": "serdex", "path": "harness/src/c17.rs", "serves_properties": ["C17"], "kind_free_text": "bounded-exhaustive value enumeration through serde entry points"},
-            {"name": "codec", "path": "harness/src/sweeps.rs", "serves_properties": ["C01", "C02", "C08", "C14"],
+            {"name": "codec", "path": "harness/src/sweeps.rs", "serves_properties": ["C01", "C02", "C07", "C08", "C14"],
              "kind_free_text": "bounded-exhaustive case enumeration (harness/src/codec.rs) through the real codecs in forked workers; expectations from plans + specdb"},
             {"name": "sched", "path": "harness/src/sched.rs", "serves_properties": ["C18", "C12"],
              "kind_free_text": "deterministic baton scheduler over real OS threads; stateless DFS over choice vectors with iterated preemption bound; yield points injected by cfg(rbx_dom_verif) shims in rbx_types"},
